@@ -140,26 +140,12 @@ theorem buffered_le_window (w : Nat) (hw : w ≤ maxVarInt) (ops : List Op) :
 
 /-! ### where the full-strength table theorem fails (shapes excluded by `Covered`) -/
 
-/-- a server with client-initiated bidirectional stream 0 on which 4 bytes arrived -/
-def exState : State :=
-  match (State.init true 1000 100 100 100 10 10).onFrame .application (.stream 0 0 [1, 2, 3, 4] false) with
-  | .ok s => s
-  | .error _ => State.init true 1000 100 100 100 10 10
-
-/-- `none`: the frame was processed; `some c`: the connection is closed with `c` -/
-def outcome (r : Except ErrorCode State) : Option ErrorCode := match r with | .ok _ => none | .error e => some e
-
 /-- RESET_STREAM with final size 2 after 4 bytes were received: a FINAL_SIZE_ERROR per RFC 9000 §20.1, but
     `init_reset` only checks the flow-control window when no final size is known -/
 theorem reset_below_received_counterexample :
     commits exState .application (.resetStream 0 2) .finalSizeBelowReceived
     ∧ outcome (exState.onFrame .application (.resetStream 0 2)) = none := by
   refine ⟨⟨rfl, 0, (view exState 0).get (by decide), by simp, by decide, Or.inr ⟨2, rfl, by decide⟩⟩, by decide⟩
-
-/-- a server that opened its unidirectional stream 3 -/
-def exStateUni : State :=
-  let s := State.init true 1000 100 100 100 10 10
-  (s.setStream 3 (s.newStream 3)).setNext true true 1
 
 /-- STREAM on an already created send-only stream: STREAM_STATE_ERROR per §19.8, but the closed receive half
     (`DataRead`) silently ignores the data -/
